@@ -81,8 +81,11 @@ namespace nmtools::index
             at(result,i) = idx;
         }
 
-        at(result,axis1) = at(indices,meta::ct_v<-1>);
-        at(result,axis2) = at(indices,meta::ct_v<-1>) + offset;
+        // a positive offset selects a diagonal above the main one (shifted along axis2), a negative offset one below it (shifted along axis1)
+        const auto diag_i = at(indices,meta::ct_v<-1>);
+        using diag_t = meta::remove_cvref_t<decltype(diag_i)>;
+        at(result,axis1) = (offset < 0) ? (diag_t)(diag_i - offset) : diag_i;
+        at(result,axis2) = (offset > 0) ? (diag_t)(diag_i + offset) : diag_i;
 
         return result;
     }
